@@ -3,15 +3,17 @@
 From Coq Require Import List NArith ZArith Bool.
 From Muscle Require Import Gen.Consts Refl.Base Refl.Tree Refl.Matcher Refl.Traverse Refl.Session Refl.Server Refl.Route
   Refl.TravBase Refl.TraverseProofs Refl.TraverseTheorems Refl.TraverseExit Refl.TravWitness Refl.RouteProofs Refl.RouteRun
-  Refl.RouteWitness.
+  Refl.RouteWitness Pat.Ere Pat.Translate Refl.ClauseKeys Refl.PatInst Refl.RoutePat.
 Import ListNotations.
 
 (* The theorems below are about the repaired code: the sources the translator has just read must not contain the
-   as-found text of F12 (guard), F19 (once per session), F20 (default route), and PassMessageCallbackAux must return
-   NODE_DEPTH_SESSIONNAME, DumbReflectSession must start with both gateway/neighbour flags set. *)
+   as-found text of F12 (guard), F19 (once per session), F20 (default route), F39 (lookup keys of a comma list unescaped
+   twice), and PassMessageCallbackAux must return NODE_DEPTH_SESSIONNAME, DumbReflectSession must start with both
+   gateway/neighbour flags set. *)
 Theorem code_is_repaired :
-  (c_c05_guard_as_found, c_c05_once_as_found, c_c05_route_as_found) = (0, 0, 0)%N /\
-  (c_c05_pass_returns_session_depth, c_c05_default_flags_gw_and_nb) = (1, 1)%N /\ r_as_is = r_all_fixed.
+  (c_c05_guard_as_found, c_c05_once_as_found, c_c05_route_as_found, c_c05_uvkeys_as_found) = (0, 0, 0, 0)%N /\
+  (c_c05_pass_returns_session_depth, c_c05_default_flags_gw_and_nb) = (1, 1)%N /\ r_as_is = r_all_fixed /\
+  (forall st, clause_keys st = clause_keys_with true st).
 Proof. repeat split; reflexivity. Qed.
 Print Assumptions code_is_repaired.
 
@@ -19,14 +21,15 @@ Print Assumptions code_is_repaired.
    calls back on is duplicate-free and identical to the set obtained by testing every node's path below the start
    node with PathMatcher::MatchesPath -- for every tree, every set of patterns (any depths, any mixture of clauses
    taking the hash-lookup or the iteration path), every start node, with and without filters.
-   Premises: the clause laws of C15 (a clause that reports lookup keys matches exactly those names), tree and
-   table well-formedness. *)
+   Premises: the clause laws of C15 (a clause that reports lookup keys matches exactly those names; the "matches only
+   its keys" half is needed only of the names [okname] that occur in the tree, e.g. non-empty strings), tree and table
+   well-formedness. *)
 Theorem traversal_eq_bruteforce :
-  forall (M : MatchOps),
-    (forall (c : clause) (ks : list name) (k : name), ckeys c = Some ks -> cmatch c k = true -> In k ks) ->
+  forall (M : MatchOps) (okname : name -> Prop),
+    (forall (c : clause) (ks : list name) (k : name), okname k -> ckeys c = Some ks -> cmatch c k = true -> In k ks) ->
     (forall (c : clause) (ks : list name) (k : name), ckeys c = Some ks -> In k ks -> cmatch c k = true) ->
     forall (t : tree) (m : matcher) (root : path) (use_filters : bool),
-      tree_wf t -> matcher_wf m ->
+      tree_wf t -> matcher_wf m -> (forall n, In n t -> Forall okname (n_path n)) ->
       NoDup (map n_path (visits t m root use_filters true)) /\
       (forall n, In n (visits t m root use_filters true) <-> selected t m root use_filters n).
 Proof. exact @traversal_eq_bruteforce_lemma. Qed.
@@ -47,9 +50,9 @@ Print Assumptions traversal_refuted_with_group_count_guard.
 (* non-vacuity: the premises of traversal_eq_bruteforce are satisfiable by a non-trivial tree, table and clause laws *)
 Example premises_satisfiable :
   tree_wf f12_tree /\ matcher_wf f12_matcher /\
-  (forall (c : clause) (ks : list name) (k : name), ckeys c = Some ks -> cmatch c k = true -> In k ks) /\
+  (forall (c : clause) (ks : list name) (k : name), True -> ckeys c = Some ks -> cmatch c k = true -> In k ks) /\
   map n_path (visits f12_tree f12_matcher [] true true) = [[jeremy; kate]; [kevin; joe]].
-Proof. split; [exact f12_tree_wf|]. split; [exact f12_matcher_wf|]. split; [exact wkeys_sound | exact f12_fixed_visits]. Qed.
+Proof. split; [exact f12_tree_wf|]. split; [exact f12_matcher_wf|]. split; [intros c ks k _; apply wkeys_sound | exact f12_fixed_visits]. Qed.
 
 (* A client-to-client Message (what code outside the PR_COMMAND range) handed to MessageReceivedFromGateway of session s
    is appended EXACTLY ONCE to the outgoing queue of every session that [route_targets] selects and to no other queue,
@@ -60,11 +63,12 @@ Proof. split; [exact f12_tree_wf|]. split; [exact f12_matcher_wf|]. split; [exac
    reflect-to-self; [put_inbox] then applies the receiver's neighbours-to-gateway flag.
    Premises: clause laws (C15), tree well-formedness, distinct session ids, a well-formed default-route table. *)
 Theorem deliver_once :
-  forall (M : MatchOps),
-    (forall (c : clause) (ks : list name) (k : name), ckeys c = Some ks -> cmatch c k = true -> In k ks) ->
+  forall (M : MatchOps) (okname : name -> Prop),
+    (forall (c : clause) (ks : list name) (k : name), okname k -> ckeys c = Some ks -> cmatch c k = true -> In k ks) ->
     (forall (c : clause) (ks : list name) (k : name), ckeys c = Some ks -> In k ks -> cmatch c k = true) ->
     forall (st : rstate) (s : sid) (ss : session) (ri : rinfo) (m : umsg),
-      tree_wf (sv_tree (rs_srv st)) -> NoDup (map s_id (sv_sessions (rs_srv st))) -> matcher_wf (ri_route ri) ->
+      tree_wf (sv_tree (rs_srv st)) -> (forall n, In n (sv_tree (rs_srv st)) -> Forall okname (n_path n)) ->
+      NoDup (map s_id (sv_sessions (rs_srv st))) -> matcher_wf (ri_route ri) ->
       get_session (rs_srv st) s = Some ss -> get_info st s = Some ri -> in_cmd_range (u_what m) = false ->
       route_msg r_all_fixed st s m
       = mkRS (rs_srv st)
@@ -75,11 +79,11 @@ Print Assumptions deliver_once.
 
 (* the traversal behind it, for any table: one delivery per selected session *)
 Theorem pass_traversal_delivers_once :
-  forall (M : MatchOps),
-    (forall (c : clause) (ks : list name) (k : name), ckeys c = Some ks -> cmatch c k = true -> In k ks) ->
+  forall (M : MatchOps) (okname : name -> Prop),
+    (forall (c : clause) (ks : list name) (k : name), okname k -> ckeys c = Some ks -> cmatch c k = true -> In k ks) ->
     (forall (c : clause) (ks : list name) (k : name), ckeys c = Some ks -> In k ks -> cmatch c k = true) ->
     forall (st : rstate) (s : sid) (self_ok : bool) (d : dlv) (mt : matcher),
-      tree_wf (sv_tree (rs_srv st)) -> matcher_wf mt ->
+      tree_wf (sv_tree (rs_srv st)) -> (forall n, In n (sv_tree (rs_srv st)) -> Forall okname (n_path n)) -> matcher_wf mt ->
       pass_traversal r_all_fixed st s self_ok d mt
       = map (fun ri => if gets st s self_ok mt (ri_id ri) then put_inbox s d ri else ri) (rs_info st).
 Proof. exact @pass_traversal_once. Qed.
@@ -140,3 +144,53 @@ Example deliver_once_premises_satisfiable :
   length (sv_tree (rs_srv setup_state)) = 6 /\
   (exists ss ri, get_session (rs_srv setup_state) 0%N = Some ss /\ get_info setup_state 0%N = Some ri /\ matcher_wf (ri_route ri)).
 Proof. exact setup_state_wf. Qed.
+
+(* ---- the clause laws are not only premises: the instance used by the correspondence run satisfies them ---- *)
+
+(* The MatchOps instance [pat_ops] (Refl/PatInst.v) = C15's model of regex/StringMatcher.cpp + the lookup-key parsing of
+   DoTraversalAux / DoDirectChildLookup (repaired, F39).  Its lookup keys are exactly the names its clause matches, for
+   every name that is the number of a non-empty string -- by C15's laws unique_sound and uvlist_sound. *)
+Theorem clause_laws_hold :
+  forall (tbl : name -> list N) (untbl : list N -> name), (forall s, tbl (untbl s) = s) ->
+    (forall (c : list N) (ks : list name) (k : name),
+       okname tbl untbl k -> pkeys untbl true c = Some ks -> pmatch tbl c k = true -> In k ks) /\
+    (forall (c : list N) (ks : list name) (k : name), pkeys untbl true c = Some ks -> In k ks -> pmatch tbl c k = true).
+Proof. intros tbl untbl H. split; [exact (pkeys_sound tbl untbl) | exact (pkeys_complete tbl untbl H)]. Qed.
+Print Assumptions clause_laws_hold.
+
+(* traversal_eq_bruteforce without clause premises, for the StringMatcher model *)
+Theorem traversal_eq_bruteforce_stringmatcher :
+  forall (tbl : name -> list N) (untbl : list N -> name), (forall s, tbl (untbl s) = s) ->
+  forall (t : tree) (m : @matcher (pat_ops tbl untbl true)) (root : path) (use_filters : bool),
+    tree_wf t -> matcher_wf m -> (forall n, In n t -> Forall (okname tbl untbl) (n_path n)) ->
+    NoDup (map n_path (@visits (pat_ops tbl untbl true) t m root use_filters true)) /\
+    (forall n, In n (@visits (pat_ops tbl untbl true) t m root use_filters true) <->
+               @selected (pat_ops tbl untbl true) t m root use_filters n).
+Proof. exact traversal_eq_bruteforce_stringmatcher_lemma. Qed.
+Print Assumptions traversal_eq_bruteforce_stringmatcher.
+
+(* deliver_once without clause premises, for the StringMatcher model *)
+Theorem deliver_once_stringmatcher :
+  forall (tbl : name -> list N) (untbl : list N -> name), (forall s, tbl (untbl s) = s) ->
+  forall (st : @rstate (pat_ops tbl untbl true)) (s : sid) (ss : @session (pat_ops tbl untbl true))
+         (ri : @rinfo (pat_ops tbl untbl true)) (m : @umsg (pat_ops tbl untbl true)),
+    tree_wf (sv_tree (rs_srv st)) -> (forall n, In n (sv_tree (rs_srv st)) -> Forall (okname tbl untbl) (n_path n)) ->
+    NoDup (map s_id (sv_sessions (rs_srv st))) -> matcher_wf (ri_route ri) ->
+    get_session (rs_srv st) s = Some ss -> get_info st s = Some ri -> in_cmd_range (u_what m) = false ->
+    route_msg r_all_fixed st s m
+    = mkRS (rs_srv st)
+           (map (fun x => if route_targets st s ri m (ri_id x)
+                          then put_inbox s (mkD s (u_tag m) (overwrite (u_session m) (s_name ss))) x else x) (rs_info st)).
+Proof. exact deliver_once_stringmatcher_lemma. Qed.
+Print Assumptions deliver_once_stringmatcher.
+
+(* F39: with the key parsing as found a list-of-unique-values clause reports a lookup key it does not match
+   (the clause a\\b,c looks up ab), so the clause law fails; the repaired parsing reports a\b and c *)
+Theorem uvkeys_refuted_as_found :
+  exists (p k : list N),
+    is_uvlist (sm_of ere_engine p) = true /\
+    (exists ks, clause_keys_with false (sm_of ere_engine p) = Some ks /\ In k ks) /\
+    matches (sm_of ere_engine p) k = false /\
+    clause_keys_with true (sm_of ere_engine p) = Some [[97; 92; 98]; [99]]%N.
+Proof. exact uvkeys_refuted_as_found_lemma. Qed.
+Print Assumptions uvkeys_refuted_as_found.
